@@ -2066,8 +2066,6 @@ def timestamp_field_constructor(session, group, name, timestamp=None, chunksize=
 class IndexedStringField(HDF5Field):
     def __init__(self, session, group, dataframe, write_enabled=False):
         super().__init__(session, group, dataframe, write_enabled=write_enabled)
-        self._session = session
-        self._dataframe = None
         self._data_wrapper = None
         self._index_wrapper = None
         self._value_wrapper = None
